@@ -68,6 +68,10 @@ class Built:
 # data variables
 
 INT_FILL = {'i4fill': -999, 'i4missing': -999, 'i4fill0': 0}
+# storage types of the tagged data variables (values are small integers, exact in every one of them)
+FLOAT_DTYPES = {'f8': 'f8', 'f4': 'f4'}
+INT_DTYPES = {'i4': 'i4', 'i8': 'i8', 'u4': 'u4'}
+DEFAULT_DTYPES = ('f8', 'f8', 'f4', 'i4', 'i8', 'u4')
 
 
 def _add_vars(ds: xr.Dataset, built_grids: dict, var_recipes: list, sizes_extra: dict) -> dict:
@@ -89,20 +93,20 @@ def _add_vars(ds: xr.Dataset, built_grids: dict, var_recipes: list, sizes_extra:
         dtype = vr.get('dtype', 'f8')
         attrs = {}
         nan = tuple(p for p in vr.get('nan', ()) if p < n)
-        if dtype == 'f8':
-            data = (np.arange(n, dtype='f8') + base).reshape(shape)
+        if dtype in FLOAT_DTYPES:
+            data = (np.arange(n, dtype='f8') + base).astype(FLOAT_DTYPES[dtype]).reshape(shape)
             if nan:
                 flat = data.reshape(-1)
                 flat[list(nan)] = np.nan
         else:
-            data = (np.arange(n, dtype='i4') + base).reshape(shape)
+            data = (np.arange(n, dtype='i8') + base).astype(INT_DTYPES.get(dtype, 'i4')).reshape(shape)
             if dtype == 'i4fill':
                 attrs['_FillValue'] = np.int32(-999)
             elif dtype == 'i4fill0':
                 attrs['_FillValue'] = np.int32(0)      # a fill value that is falsy
             elif dtype == 'i4missing':
                 attrs['missing_value'] = np.int32(-999)
-            if nan and dtype != 'i4':
+            if nan and dtype in INT_FILL:
                 flat = data.reshape(-1)
                 flat[list(nan)] = INT_FILL[dtype]
             else:
@@ -114,7 +118,7 @@ def _add_vars(ds: xr.Dataset, built_grids: dict, var_recipes: list, sizes_extra:
 
 
 def random_vars(rng: random.Random, kinds: list, n_vars: int = 3, max_extra: int = 2,
-                dtypes=('f8',), with_nan: bool = False, nogrid: bool = True) -> tuple[list, dict]:
+                dtypes=DEFAULT_DTYPES, with_nan: bool = False, nogrid: bool = True) -> tuple[list, dict]:
     """Variable recipes: each on a random kind, 0..max_extra extra dims, random dim order."""
     extra_pool = [('time', rng.randint(1, 3)), ('k', rng.randint(1, 3)), ('spare', rng.randint(1, 2))]
     sizes_extra = dict(extra_pool)
@@ -145,7 +149,7 @@ def finalize_var_orders(rng: random.Random, var_recipes: list, grids: dict, perm
             order = list(range(nd))
             rng.shuffle(order)
             vr['order'] = order
-        if with_nan and vr.get('dtype', 'f8') != 'i4':
+        if with_nan and (vr.get('dtype', 'f8') in FLOAT_DTYPES or vr.get('dtype') in INT_FILL):
             vr['nan'] = sorted(rng.sample(range(40), rng.randint(0, 4)))
 
 
@@ -848,7 +852,7 @@ def random_recipe(rng: random.Random, conv: str | None = None, tier: str = 'quic
 
 
 def attach_vars(rng: random.Random, recipe: dict, n_vars: int = 3, max_extra: int = 2,
-                dtypes=('f8',), permute: bool = True, with_nan: bool = False) -> dict:
+                dtypes=DEFAULT_DTYPES, permute: bool = True, with_nan: bool = False) -> dict:
     """Add tagged data variables to a recipe (needs the grid kinds, so build once)."""
     probe = build({k: v for k, v in recipe.items() if k not in ('vars', 'sizes_extra')})
     kinds = list(probe.grids.keys())
